@@ -47,7 +47,7 @@ Definition side_b (r : run_case) : bool :=
 
 Definition model_agrees (c : case) : bool :=
   match c with
-  | CRun r => run_agrees r && side_b r
+  | CRun r => run_agrees r && side_b r && hops_agree r
   | CParse hdr pk o => parse_agrees hdr pk o
   end.
 
@@ -125,7 +125,7 @@ Qed.
 Lemma corr_sound c : model_agrees c = true -> obs_ok c = true.
 Proof.
   unfold model_agrees, obs_ok. destruct c as [r|hdr pk o].
-  - intros H. apply andb_true_iff in H as [Hr Hs].
+  - intros H. apply andb_true_iff in H as [H _]. apply andb_true_iff in H as [Hr Hs].
     destruct (side_b_sides r Hr Hs) as [Hside Hside2].
     apply run_agrees_history in Hr as [Hh Hu]. cbn zeta. rewrite Hh.
     rewrite (S1_holds _ _ Hside), (S2_holds _ _ Hside2), (S3_holds _ _ Hside). reflexivity.
